@@ -19,17 +19,20 @@ func init() {
 		Exhaustive: true,
 		Rule: "exhaustive: all valid commands with <=4 segments over segment alphabet {a,b,ab,''(non-final)} -> all ordered pairs (Covers vs segment-prefix model, Segments, reflexivity, antisymmetry, top), all ordered pairs of the 259 commands with <=3 segments over {é,è,ほ,ふ,a,éa} (UTF-8 encodings sharing lead bytes) and all triples of a 90-command subset (transitivity); " +
 			"parser: all strings of <=6 runes over {/,a,B,é,É,space} plus seeded random Unicode strings (about 2000 runes of Latin, Greek, Cyrillic, Han, Deseret, Roman numerals, circled / full-width / mathematical letters on which the readings of 'upper-case letter' agree - Unicode property Uppercase == changed by lower-casing; each also offered once on its own); Join/New over non-empty slash-free segments. " +
+			"Purity (also in a -race build): a sample of these calls on shared objects is repeated in reverse / shuffled order and from 16..32 goroutines at once; every outcome must equal the first one and the race detector must stay silent. " +
 			"non-trivial = pair of different commands neither of which is '/', or a parser string containing '/' and another rune; distinct = the pair / the string.",
 		Assumptions: []string{
 			"reference: segment-prefix model ref.CmdCovers (25 lines), self-tested against the repository's TestCovers table",
 			"invalid UTF-8, title-case letters, capital letters without a lower-case form and squared capitals are outside the generated alphabet (\"no upper-case letters\" is ambiguous there; counted in the evidence)",
 		},
-		Shards:      shards(4, 16),
-		Run:         runC15,
-		MinEvals:    floor(100000, 500000),
-		MinDistinct: floor(50000, 100000),
+		Shards:          shards(4, 16),
+		RaceShards:      shards(1, 2),
+		RaceIsViolation: true,
+		Run:             runC15,
+		MinEvals:        floor(100000, 500000),
+		MinDistinct:     floor(50000, 100000),
 		RequiredCells: func(string) []string {
-			return []string{"rel/equal", "rel/parent", "rel/child", "rel/textual-prefix", "rel/sibling", "rel/top", "parse/accept", "parse/reject-noslash", "parse/reject-trailing", "parse/reject-upper", "join", "transitivity/chain", "non-ascii-pairs", "lookalike-pairs", "parse/alphabet/other-uppercase"}
+			return []string{"purity/command/history", "purity/command/concurrent", "rel/equal", "rel/parent", "rel/child", "rel/textual-prefix", "rel/sibling", "rel/top", "parse/accept", "parse/reject-noslash", "parse/reject-trailing", "parse/reject-upper", "join", "transitivity/chain", "non-ascii-pairs", "lookalike-pairs", "parse/alphabet/other-uppercase"}
 		},
 	})
 	addSelfTest("R-cmd vs in-tree TestCovers vectors", selfTestCmd)
@@ -100,6 +103,9 @@ func cmdRel(a, b string) string {
 }
 
 func runC15(w *mon.W) {
+	if purityGate(w, c15Purity) {
+		return
+	}
 	cmds := c15Commands()
 	parsed := make([]command.Command, len(cmds))
 	for i, s := range cmds {
